@@ -1,5 +1,6 @@
 # C04 / C05 / C07 / C08 on the real lib/date-core.c
 U = 'unsigned int'
+UNR = lambda *fs: ['%s/UNREACH_%s' % (f, f) for f in fs]
 SV = ['cadical']
 Y2 = dict(ins=[('uint32_t', 'in_u1'), ('uint32_t', 'in_u2')])
 SWY = '((1598 + RND % 2500) << 10) | ((RND % 14) << 6) | (RND % 33)'
@@ -37,20 +38,51 @@ GS('dm.__yd_diff', 'date-core', '__yd_diff', ['C05'], ysplit('d1.y', 4, 1601, 40
 G('dm.dt_dur_neg_p', 'date-core', 'dt_dur_neg_p', ['C16'], ins=[(U, 'in_dt'), ('int', 'in_dv'), (U, 'in_neg')],
   setup='struct dt_ddur_s dur = {DT_DURUNK}; dur.durtyp = (dt_durtyp_t)in_dt; dur.dv = in_dv; dur.neg = in_neg & 1;', call='dt_dur_neg_p(dur)', ret='int',
   sweep={'in_dt': 'RND % 12'})
-# C02: %G prints the ISO year whatever the representation / state of the print record
-for t in ('DT_YMD', 'DT_YD', 'DT_YMCW', 'DT_YWD'):
-    G('dm.__strfd_card.G.' + t[3:], 'date-core', '__strfd_card', ['C02'],
-      body='\tchar *buf; size_t bsz; struct dt_spec_s s; struct strpd_s *d; struct dt_d_s that; unsigned in_typ = %s;\n'
-           '\t__CPROVER_assume(that.typ == (dt_dtyp_t)in_typ);\n\t/*REACH*/\n\t__strfd_card(buf, bsz, s, d, that);' % t,
-      reach_hint='__CPROVER_assume(that.u == %s);' % {'DT_YMD': '((2012u << 10) | (12u << 6) | 31u)', 'DT_YD': '((2012u << 16) | 366u)', 'DT_YMCW': '((2012u << 10) | (12u << 6) | (5u << 3) | 1u)', 'DT_YWD': '((2013u << 13) | (1u << 6) | (1u << 3) | 7u)'}[t],
-      replace=['dt_dconv'], native=False, timeout=900, solvers=['cadical'], reach=False,
-      note='no reachability twin: finding a model through the assumed dt_dconv contract did not finish in 10 min; non-vacuity is shown by seed C02_1 (the group fails on it), not on every run')
+# C02: numeric date specifiers print the same text for the same day whatever the representation / state of the print record
+STRF_HINT = {'DT_YMD': '((2012u << 10) | (12u << 6) | 31u)', 'DT_YD': '((2012u << 16) | 366u)', 'DT_YMCW': '((2012u << 10) | (12u << 6) | (5u << 3) | 1u)',
+             'DT_YWD': '((2013u << 13) | (1u << 6) | (1u << 3) | 7u)', 'DT_DAISY': '144470u'}
+# which lazy fill-in helper a representation can reach under REC: ywd / yd records start without month -> dt_get_md; ymcw records start
+# without day of month -> dt_get_mday; everything else is asserted unreachable
+def STRF_REPL(t):
+    md = ['dt_get_md'] if t in ('DT_YWD', 'DT_YD') else UNR('dt_get_md')
+    dd = ['dt_get_mday'] if t == 'DT_YMCW' else UNR('dt_get_mday')
+    # the callees of the specifiers that are not under contract are asserted unreachable (the specifier is fixed in each group)
+    return ['dt_dconv', '__ymd_get_yday'] + md + dd + UNR('dt_get_mon', 'dt_get_bday_q', '__bizda_get_yday', 'dt_get_wcnt_year', 'dt_get_wcnt_mon', 'dt_get_quarter', 'dt_get_wday', 'arritostr', 'verif_snprintf')
+# quick tier: every specifier on the representations where it is not a plain field copy (6 GB and 2-5 min per group); all 29 in the thorough tier
+STRF_QUICK = {('J', 'YMD'), ('J', 'YD'), ('J', 'YMCW'), ('J', 'YWD'), ('J', 'DAISY'), ('Y', 'YWD'), ('M', 'YD'), ('D', 'YMCW'), ('D', 'YD'), ('F', 'YD'), ('G', 'YMD'), ('G', 'YWD')}
+STRF_SPFL = {'G': 'DT_SPFL_N_YEAR', 'Y': 'DT_SPFL_N_YEAR', 'M': 'DT_SPFL_N_MON', 'D': 'DT_SPFL_N_DCNT_MON', 'J': 'DT_SPFL_N_DCNT_YEAR', 'F': 'DT_SPFL_N_DSTD'}
+for c in ('G', 'Y', 'M', 'D', 'J', 'F'):
+    for t in ('DT_YMD', 'DT_YD', 'DT_YMCW', 'DT_YWD', 'DT_DAISY'):
+        if c == 'G' and t == 'DT_DAISY':
+            continue
+        G('dm.__strfd_card.%s.%s' % (c, t[3:]), 'date-core', '__strfd_card', ['C02'],
+          body='\tchar *buf; size_t bsz; struct strpd_s *d; unsigned in_typ = %s; uint32_t in_u; unsigned in_ab, in_cap, in_sc12, in_wk, in_param;\n'
+               '\t/* value and specifier are built field by field from constant-initialised structs: the fields that select the representation and the\n'
+               '\t * specifier are constants (symex prunes the other cases), everything else is unconstrained */\n'
+               '\tstruct dt_d_s that = {DT_DUNK}; that.typ = (dt_dtyp_t)in_typ; that.u = in_u; that.param = in_param;\n'
+               '\tstruct dt_spec_s s = {0}; s.spfl = %s; s.abbr = DT_SPMOD_LONG; s.tai = %d; s.ab = in_ab; s.cap = in_cap; s.sc12 = in_sc12; s.wk_cnt = in_wk;\n'
+               '\t__CPROVER_assume(SP_%s(s));\n\t/*REACH*/\n\t__strfd_card(buf, bsz, s, d, that);' % (t, STRF_SPFL[c], 1 if c == 'G' else 0, c),
+          reach_hint='__CPROVER_assume(in_u == %s);' % STRF_HINT[t],
+          replace=STRF_REPL(t), contract='C_strfd_' + c + ('_DSY' if t == 'DT_DAISY' else ''), weight=2, tier=('quick' if (c, t[3:]) in STRF_QUICK else 'thorough'), native=False, timeout=900, solvers=['cadical'], reach=(False if c == 'G' else True),
+          needs={'dt_get_md': r'\.%s$' % t[3:], 'dt_get_mday': r'\.%s$' % t[3:]},
+          note='no reachability twin for %G: finding a model through the assumed dt_dconv contract did not finish in 10 min; non-vacuity is shown by seed C02_1' if c == 'G' else '')
+for t in ('DT_YWD', 'DT_YD'):
+    G('dm.dt_get_md.' + t[3:], 'date-core', 'dt_get_md', ['C02'], ins=[(U, 'in_typ'), ('uint32_t', 'in_u')], fix={'in_typ': t},
+      setup='struct dt_d_s that = {DT_DUNK}; that.typ = (dt_dtyp_t)in_typ; that.u = in_u;', call='dt_get_md(that)', ret='struct __md_s',
+      replace=['__ymcw_get_mday', '__ywd_get_md', '__yd_get_md'], native=False, solvers=SV, timeout=600)
+for t in ('DT_YMD', 'DT_YMCW'):
+    G('dm.dt_get_mday.' + t[3:], 'date-core', 'dt_get_mday', ['C02'], ins=[(U, 'in_typ'), ('uint32_t', 'in_u')], fix={'in_typ': t},
+      setup='struct dt_d_s that = {DT_DUNK}; that.typ = (dt_dtyp_t)in_typ; that.u = in_u;', call='dt_get_mday(that)', ret='int',
+      replace=['__ymcw_get_mday', '__daisy_to_ymd'] + UNR('__bizda_get_mday'), solvers=SV, timeout=600, sweep={'in_u': 'RND'})
+G('dm.__prep_strfd_ywd', 'date-core', '__prep_strfd_ywd', ['C02'], body='\tstruct strpd_s *tgt; dt_ywd_t d;\n\t__prep_strfd_ywd(tgt, d);', replace=['__ywd_get_year'], native=False,
+  solvers=SV, timeout=600)
+G('dm.__prep_strfd_daisy', 'date-core', '__prep_strfd_daisy', ['C02'], body='\tstruct strpd_s *tgt; dt_daisy_t d;\n\t__prep_strfd_daisy(tgt, d);', replace=['__daisy_to_ymd'], native=False,
+  solvers=SV, timeout=600)
 for t in ('DT_YMD', 'DT_YD', 'DT_YWD', 'DT_DAISY'):
     G('dm.dt_dcmp.' + t[3:], 'date-core', 'dt_dcmp', ['C08'], ins=[(U, 'in_typ'), ('uint32_t', 'in_u1'), ('uint32_t', 'in_u2')], fix={'in_typ': t},
       setup='struct dt_d_s d1 = {DT_DUNK}, d2 = {DT_DUNK}; d1.typ = d2.typ = (dt_dtyp_t)in_typ; d1.u = in_u1; d2.u = in_u2;', call='dt_dcmp(d1, d2)', ret='int',
       replace=['__ymcw_cmp/UNREACH___ymcw_cmp'], solvers=SV, timeout=600, sweep={'in_u1': 'RND', 'in_u2': 'RND'})
 G('dm.__yd_fixup', 'date-core', '__yd_fixup', ['C04'], ins=[('uint32_t', 'in_u')], setup='dt_yd_t d; d.u = in_u;', call='__yd_fixup(d)', ret='dt_yd_t', replace=['__get_ydays'], sweep={'in_u': SWD})
-UNR = lambda *fs: ['%s/UNREACH_%s' % (f, f) for f in fs]
 G('dm.__ymcw_add_y', 'date-core', '__ymcw_add_y', ['C04'], ins=[('uint32_t', 'in_u'), ('int', 'in_n')], setup='dt_ymcw_t d; d.u = in_u;', call='__ymcw_add_y(d, in_n)', ret='dt_ymcw_t',
   sweep={'in_u': SWC, 'in_n': '(int)(RND % 200) - 100'})
 G('dm.__yd_add_y', 'date-core', '__yd_add_y', ['C04'], ins=[('uint32_t', 'in_u'), ('int', 'in_n')], setup='dt_yd_t d; d.u = in_u;', call='__yd_add_y(d, in_n)', ret='dt_yd_t',
